@@ -379,6 +379,9 @@ def run_graph(ctx, spec, rng, n_ops):
       if holders_in_pytree:
         # a selected Variable held by a plain container: pop must reject (pytree nodes are immutable)
         ctx.check(raised is not None, 'pop:shared_reference_left:in_plain_container', lambda: dict(filters=fds2))
+        if raised is not None:
+          # a rejected pop has removed nothing (the reference model performs the operation or not at all)
+          ctx.check(G.canon(g) == c_before, 'pop:rejected_but_partially_applied', lambda: dict(filters=fds2, error=repr(raised)[:120]))
       elif ctx.check(raised is None, 'pop:raised', lambda: dict(filters=fds2, error=repr(raised))):
         popped = popped if isinstance(popped, tuple) else (popped,)
         got = [[p for p, _ in statelib.to_flat_state(s)] for s in popped]
